@@ -214,9 +214,22 @@ type opReg struct {
 	ch    byte
 	role  string // infix prefix postfix
 	level int
+	// word operators (infix only): the operator is spelled as a word. via = "peek": a contextual keyword - the word
+	// stays an identifier for the lexer and an expression interceptor re-types the look-ahead token where an operator
+	// may follow an operand, then lets the parser continue (ParseRemainingExpression); via = "keywords": the word is
+	// entered into the exported token.Keywords table for the duration of the parse, so the lexer itself issues the type
+	word, via string
+}
+
+func (r opReg) text() string {
+	if r.word != "" {
+		return r.word
+	}
+	return string(r.ch)
 }
 
 var customChars = []byte{'@', '#', '^', '~', '?'}
+var opWords = []string{"in", "is", "mod", "isa", "divides", "instanceof", "xor", "implies", "concatenated_with"}
 
 // buildWith registers the operators and returns a builder (fresh lexer builder, token interceptor for the characters).
 func buildWith(regs []opReg, m Mode) (*parser.Builder, error) {
@@ -225,6 +238,13 @@ func buildWith(regs []opReg, m Mode) (*parser.Builder, error) {
 	for _, r := range regs {
 		if _, ok := types[r.ch]; !ok {
 			types[r.ch] = lb.RegisterTokenType("op" + string(r.ch))
+		}
+	}
+	wordTypes := map[string]token.Type{}
+	for _, r := range regs {
+		if r.word != "" {
+			wordTypes[r.word] = types[r.ch]
+			delete(types, r.ch) // the character itself is not an operator for the lexer
 		}
 	}
 	lb.UseTokenInterceptor(func(l *lexer.Lexer, next func() token.Token) token.Token {
@@ -242,14 +262,45 @@ func buildWith(regs []opReg, m Mode) (*parser.Builder, error) {
 	if m.Smart {
 		pb.WithSmartSemicolon(true)
 	}
+	peekWords := map[string]token.Type{}
+	defer func() {
+		if len(peekWords) == 0 || pb == nil {
+			return
+		}
+		// ONE interceptor for all contextual keywords of the builder: after every expression step, while the look-ahead
+		// token is such a word, it is re-typed and the parser continues the expression
+		pb.UseExpressionInterceptor(func(p *parser.Parser, next func() ast.Expression) ast.Expression {
+			left := next()
+			for p.PeekToken.Type == token.IDENT {
+				tt, ok := peekWords[p.PeekToken.Literal]
+				if !ok {
+					break
+				}
+				p.PeekToken.Type = tt
+				left = p.ParseRemainingExpression(left)
+			}
+			return left
+		})
+	}()
 	for _, r := range regs {
 		r := r
 		var err error
 		switch r.role {
 		case "infix":
-			err = pb.RegisterInfixOperator(types[r.ch], r.level, func(tok token.Token, left ast.Expression, right func() ast.Expression) ast.Expression {
-				return &cInfix{Tok: tok, Op: string(r.ch), L: left, R: right(), Level: r.level}
+			tt := types[r.ch]
+			if r.word != "" {
+				tt = wordTypes[r.word]
+			}
+			err = pb.RegisterInfixOperator(tt, r.level, func(tok token.Token, left ast.Expression, right func() ast.Expression) ast.Expression {
+				return &cInfix{Tok: tok, Op: r.text(), L: left, R: right(), Level: r.level}
 			})
+			if err == nil && r.via == "keywords" {
+				token.Keywords[r.word] = tt
+				keywordsAdded = append(keywordsAdded, r.word)
+			}
+			if err == nil && r.via == "peek" {
+				peekWords[r.word] = tt
+			}
 		case "prefix":
 			err = pb.RegisterPrefixOperator(types[r.ch], func(tok token.Token, right func() ast.Expression) ast.Expression {
 				return &cPrefix{Tok: tok, Op: string(r.ch), X: right()}
@@ -264,6 +315,16 @@ func buildWith(regs []opReg, m Mode) (*parser.Builder, error) {
 		}
 	}
 	return pb, nil
+}
+
+// keywordsAdded: words entered into token.Keywords by buildWith (via = "keywords"); removed again after the parse.
+var keywordsAdded []string
+
+func removeAddedKeywords() {
+	for _, w := range keywordsAdded {
+		delete(token.Keywords, w)
+	}
+	keywordsAdded = nil
 }
 
 func checkCustomTree(t *fw.T, regs []opReg, tree *cnode, clause string, keyLevel int) {
@@ -283,6 +344,7 @@ func checkCustomTreeIC(t *fw.T, regs []opReg, tree *cnode, clause string, keyLev
 	var got string
 	var errs []parser.ParserError
 	ok := t.Guard("parse with registered operators", wit, func() {
+		defer removeAddedKeywords()
 		pb, err := buildWith(regs, Mode{})
 		if err != nil {
 			panic("registration refused: " + err.Error())
@@ -332,7 +394,7 @@ var nbBin = []string{"||", "&&", "==", "!=", "<", ">", "<=", ">=", "+", "-", "*"
 // one case = one level L: every built-in neighbour on either side, both tree shapes
 func runC05Levels(t *fw.T) {
 	L := 1 + t.Index
-	regs := []opReg{{'@', "infix", L}}
+	regs := []opReg{{ch: '@', role: "infix", level: L}}
 	at := func(l, r *cnode) *cnode { return &cnode{kind: "cin", op: "@", level: L, kids: []*cnode{l, r}} }
 	a, b, c := cid("a"), cid("b"), cid("c")
 	var trees []*cnode
@@ -371,7 +433,7 @@ func runC05Levels(t *fw.T) {
 // two registered infix operators at (L1, L2)
 func runC05Pairs(t *fw.T) {
 	L1, L2 := 1+t.Index/13, 1+t.Index%13
-	regs := []opReg{{'@', "infix", L1}, {'#', "infix", L2}}
+	regs := []opReg{{ch: '@', role: "infix", level: L1}, {ch: '#', role: "infix", level: L2}}
 	at := func(l, r *cnode) *cnode { return &cnode{kind: "cin", op: "@", level: L1, kids: []*cnode{l, r}} }
 	hs := func(l, r *cnode) *cnode { return &cnode{kind: "cin", op: "#", level: L2, kids: []*cnode{l, r}} }
 	a, b, c := cid("a"), cid("b"), cid("c")
@@ -387,7 +449,7 @@ func runC05Pairs(t *fw.T) {
 
 // registered prefix / postfix operators against every neighbour
 func runC05PrePost(t *fw.T) {
-	regs := []opReg{{'~', "prefix", 0}, {'?', "postfix", 0}}
+	regs := []opReg{{ch: '~', role: "prefix"}, {ch: '?', role: "postfix"}}
 	pre := func(x *cnode) *cnode { return &cnode{kind: "cpre", op: "~", kids: []*cnode{x}} }
 	pst := func(x *cnode) *cnode { return &cnode{kind: "cpost", op: "?", kids: []*cnode{x}} }
 	a, b := cid("a"), cid("b")
@@ -428,7 +490,7 @@ func randCustomTree(r *rand.Rand, d int, regs []opReg) *cnode {
 		rg := regs[r.IntN(len(regs))]
 		switch rg.role {
 		case "infix":
-			return &cnode{kind: "cin", op: string(rg.ch), level: rg.level, kids: []*cnode{sub(), sub()}}
+			return &cnode{kind: "cin", op: rg.text(), level: rg.level, kids: []*cnode{sub(), sub()}}
 		case "prefix":
 			return &cnode{kind: "cpre", op: string(rg.ch), kids: []*cnode{sub()}}
 		default:
@@ -458,7 +520,18 @@ func runC05Random(t *fw.T) {
 		}
 		used[ch] = true
 		role := []string{"infix", "infix", "infix", "prefix", "postfix"}[r.IntN(5)]
-		rg := opReg{ch, role, 2 + r.IntN(12)} // level 1 is run as its own stratum (known finding)
+		rg := opReg{ch: ch, role: role, level: 2 + r.IntN(12)} // level 1 is run as its own stratum (known finding)
+		if role == "infix" && r.IntN(3) == 0 {
+			// a third of the infix operators is spelled as a word (2..14 letters), issued through the keyword table or as a
+			// contextual keyword
+			rg.word = opWords[r.IntN(len(opWords))]
+			rg.via = []string{"peek", "keywords"}[r.IntN(2)]
+			for _, o := range regs {
+				if o.word == rg.word {
+					rg.word, rg.via = "", ""
+				}
+			}
+		}
 		regs = append(regs, rg)
 		if role == "infix" && rg.level < minL {
 			minL = rg.level
@@ -667,7 +740,7 @@ func runC05History(t *fw.T) {
 						customRole[tt] = role
 					}
 					if ch != 0 {
-						accepted = append(accepted, opReg{ch, role, lvl})
+						accepted = append(accepted, opReg{ch: ch, role: role, level: lvl})
 					}
 				}
 			} else {
